@@ -63,6 +63,10 @@ func c16Gen(t *rapid.T) C16Case {
 		if chance(t, "acrpn", 35) {
 			r.Hdr = append(r.Hdr, HV{hACRPN, Vals(pick(t, "acrpnv", []string{"true", "true", "false", ""}))})
 		}
+		genOtherHeaders(t, &r)
+		if chance(t, "target", 10) {
+			r.Target = pick(t, "targetv", []string{"*", "/a?b"})
+		}
 		c.Reqs = append(c.Reqs, r)
 	}
 	return c
